@@ -16,7 +16,7 @@ from .ctx import Ctx, PathEnd, Infeasible, ReturnEx, BreakEx, ContinueEx, RaiseE
 from .values import (
     set_term, ViewList,
     SV, SInt, SBool, SReal, SBytes, SStr, SSeq, SEnum, SOpaque, SObj, SymRecDict, Unsupported,
-    Int, Bool, Real, Bytes, ByteArray, Str, ListOf, TupleOf, sort_of, has_sym, ISEQ, Sort,
+    Int, Bool, Real, Bytes, ByteArray, Str, ListOf, TupleOf, sort_of, has_sym, ISEQ, Sort, SArr,
 )
 
 REPO_PREFIX = "aiohomekit"
@@ -1164,6 +1164,8 @@ class Interp:
             if is_slice:
                 return ops.slice_(self, obj, idx[1], idx[2], idx[3])
             return ops.index(self, obj, idx)
+        if isinstance(obj, SArr):
+            return ops.normalize(self, obj.vsort.unbox(z3.Select(obj.term, obj.isort.box(idx))))
         if isinstance(obj, SymRecDict):
             if isinstance(idx, SV):
                 raise Unsupported("symbolic key in SymRecDict")
